@@ -924,6 +924,9 @@ def run_G(case):
         ocp.set_der(x, rhs)
         ocp.add_objective(ocp.sum(u ** 2 + sum(ca.sumsqr(sy) for k_, sy in syms.items() if k_ in ("bvar", "var", "varc")),
                                   include_last=False) + ocp.at_tf(x) ** 2)
+        # a state-free integrand built from the B-spline signals (and the control): collocation quadrature
+        sigs_q = [sy for k_, sy in syms.items() if k_ in ("bpar", "bvar")]
+        ocp.add_objective(ocp.integral(sum((q_ - 0.3 * u) ** 2 for q_ in sigs_q)))
         ocp.method(rockit.DirectCollocation(N=N, M=M, degree=d, scheme=sch, grid=build.make_grid(case["grid"])))
         ocp.solver("ipopt", {"ipopt.print_level": 0, "print_time": False})
         view = C.call("transcribe", nlp.NlpView, ocp)
@@ -947,7 +950,7 @@ def run_G(case):
         res["violations"].append(C.exc_violation(ID, e, "G"))
         return res
     tau = colloc.points(d, sch)
-    Cm, Dm, _ = colloc.coeffs(d, sch)
+    Cm, Dm, Bw = colloc.coeffs(d, sch)
     nrm = np.array(G.normalized(case["grid"], N))
     for it in range(3):
         w = view.random_point(rng, 1.0)
@@ -964,6 +967,7 @@ def run_G(case):
                 return res
             vals["bvar"] = sol_.reshape(1, -1)
         exp = []
+        quad = 0.0
         for k in range(N):
             h = (tc[k + 1] - tc[k]) / M
             for i in range(M):
@@ -972,16 +976,19 @@ def run_G(case):
                 for j in range(d):
                     t_j = tc[k] + (i + tau[j]) * h
                     f = wt["x"] * nodes[j + 1] + wt["u"] * uc[k]
+                    sig_here = {}
                     for kind in syms:
                         if kind in ("bpar", "bvar"):
                             cg = vals[kind].reshape(1, -1)
                             dg = cg.shape[1] - N
                             if dg == 0:
                                 # piecewise constant: a collocation time on a knot belongs to the interval it closes
-                                f += wt[kind] * float(cg[0][k])
+                                sv = float(cg[0][k])
                             else:
                                 # (a collocation time on the last knot may exceed it by one ulp: outside the spline's support)
-                                f += wt[kind] * float(spline_eval(list(tc), dg, cg, np.array([min(max(t_j, tc[0]), tc[-1])]))[0][0])
+                                sv = float(spline_eval(list(tc), dg, cg, np.array([min(max(t_j, tc[0]), tc[-1])]))[0][0])
+                            f += wt[kind] * sv
+                            sig_here[kind] = sv
                             res["counters"]["spline_points"] += 1
                         elif kind in ("parc", "varc"):
                             f += wt[kind] * float(vals[kind].reshape(-1)[k])
@@ -989,9 +996,30 @@ def run_G(case):
                             f += wt[kind] * float(vals[kind].reshape(-1)[0])
                     pidot = sum(Cm[r][j] * nodes[r] for r in range(d + 1)) / h
                     exp.append(("eq", abs(pidot - f)))
+                    quad += h * Bw[j] * sum((sv_ - 0.3 * uc[k]) ** 2 for sv_ in sig_here.values())
                 x_next = xi[idx + 1]
                 exp.append(("eq", abs(sum(Dm[r] * nodes[r] for r in range(d + 1)) - x_next)))
-        _, atoms = view.atoms(w)
+        f_nlp, atoms = view.atoms(w)
+        # objective: sum over the intervals + Mayer term + collocation quadrature of the signal integrand
+        f_ref = float(xi[-1]) ** 2 + quad
+        for k in range(N):
+            f_ref += uc[k] ** 2
+            for kind in syms:
+                if kind == "var":
+                    f_ref += float(vals[kind].reshape(-1)[0]) ** 2
+                elif kind == "varc":
+                    f_ref += float(vals[kind].reshape(-1)[k]) ** 2
+                elif kind == "bvar":
+                    cg = vals[kind].reshape(1, -1)
+                    dg = cg.shape[1] - N
+                    f_ref += (float(cg[0][k]) if dg == 0 else float(spline_eval(list(tc), dg, cg, np.array([tc[k]]))[0][0])) ** 2
+        res["evals"] += 1
+        if abs(f_nlp - f_ref) > 1e-8 * (1 + abs(f_ref)):
+            res["violations"].append({
+                "kind": "objective-with-signals", "mech": "C17|G|objective-with-bspline-signals",
+                "detail": "NLP objective %.12g, sum terms + collocation quadrature of the B-spline integrand %.12g (kinds %s)" % (
+                    f_nlp, f_ref, sorted(syms))})
+            return res
         obs = [(a[0], a[1]) for a in atoms if a[0] == "eq"]
         sc = 1 + max([v for _, v in exp] + [0.0])
         un_e, un_o = nlp.match_multiset(exp, obs, scale=sc, rtol=1e-8)
